@@ -249,9 +249,12 @@ class _LikelihoodSum(LikelihoodEnergyOperator):
         if len(lst) != len(set(lst)):
             raise ValueError(f"Name collision in likelihoods detected: {lst}")
 
-        data_residuals = reduce(add, res)
-        super(_LikelihoodSum, self).__init__(data_residuals, sqrt_data_metric_at)
-        if isinstance(data_residuals.domain, MultiDomain):
+        # None of the summands need have data residuals (e.g.
+        # JaxLikelihoodEnergyOperator)
+        data_residuals = reduce(add, res) if res else None
+        super(_LikelihoodSum, self).__init__(data_residuals,
+                                             sqrt_data_metric_at if res else None)
+        if data_residuals is None or isinstance(data_residuals.domain, MultiDomain):
             # The residuals need not depend on all keys of a summand (e.g.
             # VariableCovarianceGaussianEnergy)
             from ..sugar import domain_union
